@@ -207,6 +207,32 @@ ApiIssues(api, hm, ob, h) ==
   \cup (IF api.sync # h THEN {<<"C18", <<"get-sync-status reports a height that is not the committed height", h, api.sync>>>>} ELSE {})
   \cup UNION {QueryIssues(api.queries[i], hm, h) : i \in 1..Len(api.queries)}
 
+\* The ledger as the other read methods present it (not part of any listed property's statement; reported under the tag "API"):
+\* get-pegnet-issuance = per-asset sum of all balances, get-pegnet-rates(h) = the rates recorded for h (an error for an unrated
+\* height), get-rich-list = the count largest positive balances in non-increasing order, get-bank(h) = the bank row of h.
+RichIssues(r, ob, h) ==
+  IF r.code # 0 THEN {<<"API", <<"get-rich-list failed", h, r.asset, r.code>>>>}
+  ELSE LET n == Len(r.rows)
+           listed == {r.rows[i].a : i \in 1..n}
+           bad == \/ n > r.count \/ Cardinality(listed) # n
+                  \/ \E i \in 1..n : r.rows[i].a \notin TAddrs \/ BIsZero(r.rows[i].amt)
+                  \/ \E i \in 1..n : r.rows[i].a \in TAddrs /\ ob.bal[r.rows[i].a][r.asset] # r.rows[i].amt
+                  \/ \E i \in 1..n : \E j \in 1..n : i < j /\ ~BLeq(r.rows[j].amt, r.rows[i].amt)
+                  \/ (n < r.count /\ \E a \in TAddrs \ listed : ~BIsZero(ob.bal[a][r.asset]))
+                  \/ (n = r.count /\ n > 0 /\ \E a \in TAddrs \ listed : ~BLeq(ob.bal[a][r.asset], r.rows[n].amt))
+       IN  IF bad THEN {<<"API", <<"get-rich-list is not the top of the ledger", h, r.asset, r.count>>>>} ELSE {}
+ApiExtraIssues(api, ob, h) ==
+  IF "issuance" \notin DOMAIN api THEN {} ELSE
+  (IF api.issuanceCode # 0 \/ api.issuanceSync # h \/ \E t \in TAssets : api.issuance[t] # Supply(ObsBal(ob.bal), t)
+     THEN {<<"API", <<"get-pegnet-issuance disagrees with the sum of all balances", h>>>>} ELSE {})
+  \cup (IF ob.rated THEN (IF api.rates.code # 0 \/ \E t \in TAssets : api.rates.v[t] # ObsRates(ob)[t]
+                           THEN {<<"API", <<"get-pegnet-rates disagrees with the recorded rates", h>>>>} ELSE {})
+        ELSE (IF api.rates.code = 0 THEN {<<"API", <<"get-pegnet-rates answers for a height without rates", h>>>>} ELSE {}))
+  \cup UNION {RichIssues(api.rich[i], ob, h) : i \in 1..Len(api.rich)}
+  \cup (IF ob.bank.present /\ h >= TAct("V4")
+           /\ (api.bank.code # 0 \/ api.bank.neg \/ api.bank.amt # ob.bank.amt.v \/ api.bank.used # ob.bank.used.v \/ api.bank.req # ob.bank.req.v)
+        THEN {<<"API", <<"get-bank disagrees with the bank row", h>>>>} ELSE {})
+
 \* ------------------------------------------------------------------ behaviour
 Init == /\ l = 1 /\ cur = InitState /\ hist = EmptyFn /\ txh = {} /\ nIss = 0 /\ dig = EmptyFn
 
@@ -264,7 +290,7 @@ StepBlock ==
          iss0 == IF cacheExplains
                 THEN {<<"C09", <<"conversion priced with an averaging window that depends on when the process was started (reload by height after a restart)", in.h>>>>}
                 ELSE issH
-         apiIss == IF "api" \in DOMAIN e THEN ApiIssues(e.api, hist2, ob, in.h) ELSE {}
+         apiIss == IF "api" \in DOMAIN e THEN ApiIssues(e.api, hist2, ob, in.h) \cup ApiExtraIssues(e.api, ob, in.h) ELSE {}
          iss == iss0 \cup immIss \cup ReplayIssues(cur, in, ob, hist) \cup apiIss
          \* continue from the observed state
          nxt == [res.S EXCEPT !.bal = ObsBal(ob.bal),
